@@ -315,7 +315,7 @@ def judge(fs, op, res):
         if not got_ok:
             return "rename must succeed in the plain model but failed with " + res
         if ex is node:
-            fs.selfrenames += 1      # C08's known finding F12; never generated here
+            fs.selfrenames += 1      # renamed onto itself: nothing changes (C08's F12, fixed in 100856b)
             return None
         del op_.kids[ob]
         np_.kids[nb] = node
@@ -624,10 +624,16 @@ def compare(case, impl, model):
             return False
         # (which segments carry a closed channel decides which later writes start a background
         # flush, hence also whether a later completion event finds an unfinished write)
-        def norm(t):
+        # and whether a later save that is made to fail has anything left to write; the oracle judges
+        # every snapshot against the plain model anyway)
+        def norm(i, t):
             h = head_of(t)
+            if i > failing_save and not evs[i].startswith("c,") and evs[i][evs[i].index(".") + 1:].startswith("save,") \
+                    and evs[i].split(",")[2] == "1":
+                return "save"
             return "c" if h == "c-" else h
-        return [norm(t) for t in a[failing_save:]] == [norm(t) for t in b[failing_save:]]
+        return [norm(i, t) for i, t in enumerate(a) if i >= failing_save] == \
+               [norm(i, t) for i, t in enumerate(b) if i >= failing_save]
     body = impl
     while body.endswith(" RACE"):
         body = body[:-5]
@@ -806,9 +812,6 @@ def gen_det(rng, tier, maxb=None, nev=None):
         elif q < 0.88:
             src = rng.choice(dirs) + fname(w)
             dst = rng.choice(dirs) + (fname(w) if rng.random() < 0.7 else "")
-            a_, b_ = fs.split(src), fs.split(dst)
-            if a_[0] is not None and a_[0] is b_[0] and (b_[1] or a_[1]) == a_[1]:
-                continue       # rename onto itself: C08's known finding F12, kept out
             emit(w, "rename,%s,%s" % (src, dst))
         elif q < 0.91:
             emit(w, "remove,%s" % (rng.choice(dirs) + fname(w)))
